@@ -19,6 +19,8 @@ func init() {
 				Quick: map[string]int{"STUFF": 2, "CLIENTAUTH": 1}, Witnesses: []string{"client-certificate-requested-none-presented", "upgraded"}},
 			{Pkg: "wire", Entry: "VerifH11", What: "the embedder closes the server (Server.Close — from the session middleware, or while the connection, set up and answered, waits for its next message: no command is running) while an upgraded connection is open: whatever Close tells or does to that connection, after 'S' the raw connection carries TLS records only",
 				Quick: map[string]int{"STUFF": 2, "CLOSEINSIDE": 1}, Witnesses: []string{"server-closed-while-a-tls-connection-is-open", "server-closed-while-an-upgraded-connection-is-idle"}},
+			{Pkg: "wire", Entry: "VerifH11", What: "a GSSENCRequest before the SSLRequest (certificates configured): whether the server declines the first with 'N' or hangs up, an SSLRequest it answers is answered 'S' and only TLS follows; no session comes of plaintext start-up bytes",
+				Quick: map[string]int{"STUFF": 2, "GSS": 1}, Witnesses: []string{"gssenc-request-before-the-sslrequest"}},
 			{Pkg: "wire", Entry: "VerifH12b", What: "CancelRequest after the SSL refusal closes without reply or callback",
 				Quick: map[string]int{}, Witnesses: []string{"cancel-after-ssl"}},
 			{Pkg: "wire", Entry: "VerifH11d", What: "differential: a session (startup, one message of symbolic type and body with a correct, too small or oversized declared length, a simple query, Terminate) served in plaintext and inside TLS by two equally configured servers gives the same transcript and the same callback trace",
